@@ -194,7 +194,13 @@ def _none_tested_before(v, cmp_node, p) -> bool:
     #     `p is None or p < 0`
     child = cmp_node
     par = v.parent.get(id(child))
-    while par is not None and isinstance(par, (ast.BoolOp, ast.UnaryOp)):
+    while par is not None and isinstance(par, ast.expr) and not isinstance(par, (ast.Lambda, ast.ListComp, ast.SetComp, ast.DictComp, ast.GeneratorExp)):
+        # (through any enclosing expression: a conditional expression, a walrus, a call argument ...)
+        if isinstance(par, ast.IfExp) and child is not par.test:
+            # an arm of `x if <test> else y` is evaluated only on one outcome of the test
+            need = "T" if child is par.body else "F"
+            if any(lab == need for _, lab in _none_atom_labels(par.test, p)):
+                return True
         if isinstance(par, ast.BoolOp):
             idx = [i for i, x in enumerate(par.values) if x is child]
             for x in par.values[: idx[0] if idx else 0]:
